@@ -306,11 +306,37 @@ def predicate(case, stats):
         ("String", "Integer", "Number", "Boolean", "Null", "Element", "Nothing")
         for n in idx.values() for p in n.get("props") or []
     )
+    twin_root = R.build(recipe) if case["mode"] == "dsl" else None  # equal classes, other class objects
+    runs = []
     for value in case["values"]:
-        got = observe.verdict(root, value)
-        classes = ["mode:" + case["mode"], "verdict:" + got[0]]
+        runs.append((value, None))
+        if twin_root is not None and isinstance(value, dict) and len(runs) < 40:
+            # the same data, but with nested objects already built - by the TWIN tree's classes (equal, not identical)
+            tw = observe.verdict(twin_root, value)
+            if tw[0] == "ok" and isinstance(type(tw[1]), ObjectMeta):
+                mixed, swapped = dict(copy.deepcopy(value)), False
+                for name_, prop_ in type(tw[1]).properties.items():
+                    member = getattr(tw[1], name_, None)
+                    src_ = prop_.source if prop_.source is not None else name_
+                    if src_ in mixed and (isinstance(type(member), ObjectMeta) or (
+                            isinstance(member, list) and any(isinstance(type(x), ObjectMeta) for x in member))):
+                        mixed[src_] = member
+                        swapped = True
+                if swapped:
+                    runs.append((value, mixed))
+    for value, prebuilt in runs:
+        if prebuilt is None:
+            got = observe.verdict(root, value)
+        else:
+            try:
+                with __import__("warnings").catch_warnings():
+                    __import__("warnings").simplefilter("ignore")
+                    got = ("ok", root(prebuilt))
+            except Exception as exc:  # noqa: BLE001 - rejection is the expected outcome here
+                got = ("reject", type(exc).__name__)
+        classes = ["mode:" + case["mode"], "verdict:" + got[0]] + (["input:prebuilt-by-equal-classes"] if prebuilt else [])
         if got[0] != "ok":
-            stats.case(canon([recipe, value]), False, classes)
+            stats.case(canon([recipe, value, bool(prebuilt)]), False, classes)
             continue
         found = []
         instances(got[1], found)
